@@ -93,6 +93,10 @@ Definition rfc_message_type (method class:N) : list field :=
 
 Definition rfc_header (method class length:N) (txid:bytes) : list field :=
   [fld 2 0] ++ rfc_message_type method class ++ [fld 16 length; fld 32 magic_cookie; fld 96 (octets_value txid)].
+(* the same header with the 14-bit message type as ONE field of figure 2, its value read off figure 3 *)
+Definition rfc_type14 (method class:N) : N := bits_value (flatten_fields (rfc_message_type method class)).
+Definition rfc_header14 (method class length:N) (txid:bytes) : list field :=
+  [fld 2 0; fld 14 (rfc_type14 method class); fld 16 length; fld 32 magic_cookie; fld 96 (octets_value txid)].
 
 (* ----------------------------------------------------------------------- RFC 8489 section 14: attributes *)
 (* Figure 4: Format of STUN Attributes
